@@ -16,7 +16,7 @@ func init() {
 		Explanation: "DECIDED (conservation, unit and guard-order rules): reorder-buffer conservation (each add inserts exactly one point into the sequence-keyed buffer under the result's own Seq; each iteration of the release loop looks up the expected sequence number, stops if it is absent, otherwise deletes that key, hands that very point to its time series exactly once and increments the expected sequence number exactly once; so for contiguous sequence numbers every result becomes exactly one point, in any arrival order); time origin (began is set from the result released as sequence 0); unit agreement (the divisor turning Timestamp−began into milliseconds when pushing equals the multiplier turning it back into a Duration when iterating, both 1e6; y is Latency.Seconds()×1000); Plot.data (each series is downsampled with its own length, the plot's configured threshold unmodified and its own iterator; every returned point becomes exactly one row whose column 0 is X and column i+1 is Y of series i; rows are sorted by column 0); Downsample guards (pass-through test threshold ≥ count ∨ threshold = 0 precedes and dominates the threshold < 3 → error test; the first sample is element 0 of the first chunk; the result has capacity threshold; the last fetched element is appended last); the ErrorLabeler splits on Error == \"\". " +
 			"NOT DECIDED: LTTB bucket arithmetic (that exactly threshold points come out for every (count, threshold)), subsequence-ness and millisecond rounding are numerical.",
 		Assumptions: []string{"sequence numbers per attack are contiguous from 0 (C02)", "tsz series returns what was pushed"},
-		MinObs:      6,
+		MinObs:      5,
 		Run:         runC17,
 	})
 }
